@@ -2,7 +2,7 @@
 from __future__ import annotations
 
 from ..core import Result, register
-from ..driver import (check_append_order, check_calculate_driver, check_merge, check_resume, check_state, check_tasks_order)
+from ..driver import check_append_order, check_calculate_driver, check_merge, check_resume, check_state
 from ..rules_calc import check_positions, check_writes
 from .common import shipped_analyses
 
@@ -42,7 +42,6 @@ def run(repo, tier) -> Result:
     check_state("C01", res, repo, formula_functions(repo))
     check_calculate_driver("C01", res, repo, want=("R-SKIP", "R-SWEEP", "R-SUBS"))
     check_resume("C01", res, repo.method("hexital.core.indicator", "Indicator", "_find_calc_index"), "self.candles", "membership")
-    check_append_order("C01", res, repo)
-    check_tasks_order("C01", res, repo)
+    check_append_order("C01", res, repo, parts=("indicator", "manager"))
     check_merge("C01", res, repo)
     return res
